@@ -2,7 +2,7 @@
    Property theorems only: each is closed by `exact <lemma>`; Print Assumptions must report a closed term. *)
 From Coq Require Import List Bool Arith.
 Import ListNotations.
-Require Import PonyV.Model.C03Bexp PonyV.Proofs.C03Checker.
+Require Import PonyV.Model.C03Bexp PonyV.Proofs.C03Checker PonyV.Model.C03Decomp PonyV.Model.C03Family PonyV.Proofs.C03Roundtrip.
 
 (* The oracle the harness uses to judge every output of the real decompiler: if the truth-table checker accepts a pair
    of expressions (any number of atoms), they have the same VALUE under every assignment of their free names ... *)
@@ -23,3 +23,40 @@ Print Assumptions C03_checker_complete.
 Theorem C03_checker_truth_complete : forall e e', equiv_check_truth e e' = false -> exists rho, truthy (eval rho e) <> truthy (eval rho e').
 Proof. exact checker_truth_complete. Qed.
 Print Assumptions C03_checker_truth_complete.
+
+(* ------------------------------------------------------------------------------------------------------------------
+   The round trip on the model (Model/C03Decomp.v: CPython 3.12 code generation followed by Pony's Decompiler; the model
+   is compared with the real bytecode, Decompiler.instructions, or_jumps, conditions_end and Decompiler.ast on every run).
+
+   Full statement for the and/or/not class in filter position:
+
+       C03_andor : forall e, andornot e ->
+         exists e', decompile PFilter e = Some e' /\ forall rho, truthy (eval rho e') = truthy (eval rho e).
+
+   It is FALSE: Findings/C03.v, C03_refuted_filter_wrong_And_Or
+   (`a and ((b or c and d) and e or g)` comes back as `(a and (b or c and d) and e) or g`); the real decompiler behaves the
+   same way (known finding filter:wrong:And+Or).  What is proved is the unbounded sub-family below; what is missing for a
+   theorem on the complement of the refuted inputs is a characterisation of the nestings on which analyze_jumps'
+   "an or-jump strictly between" test classifies every jump correctly (alternating and/or nesting of depth >= 3 under an
+   outer `and` is where it fails) - not attempted.
+   ------------------------------------------------------------------------------------------------------------------ *)
+
+(* C03_andor_partial: every `or` of `and`s of literals (a | not a) - any number of alternatives, any widths, hence also a
+   single `and` of n literals and a single `or` of n literals - written as the filter of a generator decompiles to
+   exactly itself. *)
+Theorem C03_andor_partial : forall alts, wf_alts alts -> decompile PFilter (dnf alts) = Some (dnf alts).
+Proof. exact roundtrip_dnf. Qed.
+Print Assumptions C03_andor_partial.
+
+Theorem C03_andor_partial_meaning : forall alts, wf_alts alts ->
+  exists e', decompile PFilter (dnf alts) = Some e' /\ forall rho, eval rho e' = eval rho (dnf alts).
+Proof. exact roundtrip_dnf_meaning. Qed.
+Print Assumptions C03_andor_partial_meaning.
+
+(* non-vacuity: `a and not b or c or not d and e and g` is in the family, and its stream has 12 instructions + 2 *)
+Example C03_andor_partial_nonvacuous :
+  wf_alts [[Lit false 0; Lit true 1]; [Lit false 2]; [Lit true 3; Lit false 4; Lit false 5]] /\
+  dnf [[Lit false 0; Lit true 1]; [Lit false 2]; [Lit true 3; Lit false 4; Lit false 5]] =
+    Or [And [Atom 0; Not (Atom 1)]; Atom 2; And [Not (Atom 3); Atom 4; Atom 5]] /\
+  length (compile PFilter (dnf [[Lit false 0; Lit true 1]; [Lit false 2]; [Lit true 3; Lit false 4; Lit false 5]])) = 14.
+Proof. split; [split; [discriminate | repeat constructor; discriminate] | split; reflexivity]. Qed.
